@@ -27,6 +27,7 @@ def _leaf_names(t):
 def swapped_arguments(ctx, P, rule, crates, only_params=None):
     n = 0
     found = []
+    misnamed = []
     for b in P.bodies.values():
         if b.crate not in crates:
             continue
@@ -50,10 +51,25 @@ def swapped_arguments(ctx, P, rule, crates, only_params=None):
                         continue
                     if pn[j] in leaves[i] and pn[i] in leaves[j] and pn[i] not in leaves[i] and pn[j] not in leaves[j]:
                         found.append((b, blk, T.short(callee.path), pn[i], pn[j]))
+            # one-sided: a parameter receives the value that is named exactly like ANOTHER same-typed parameter of the callee
+            # (`new(.., queue_size: cfg.queue_size, .., max_connections: cfg.queue_size)`), and nothing named like itself
+            for i in range(len(pn)):
+                if not pn[i] or len(leaves[i]) != 1:
+                    continue
+                nm = next(iter(leaves[i]))
+                if nm == pn[i]:
+                    continue
+                for j in range(len(pn)):
+                    if j != i and pn[j] == nm and pt[i] == pt[j] and not any((b, blk, T.short(callee.path)) == f[:3] for f in found):
+                        misnamed.append((b, blk, T.short(callee.path), pn[i], nm))
+    for (b, blk, cn, a, c) in misnamed:
+        ctx.fail(rule, "argument-name:%s<-%s:%s<=%s" % (cn, T.short(b.path), a, c),
+                 "%s receives `%s` for its parameter `%s` although it has a parameter `%s` of the same type: the limit / size meant for one is used for the other"
+                 % (cn, c, a, c), ctx.loc(b, blk))
     for (b, blk, cn, a, c) in found:
         ctx.fail(rule, "argument-order:%s<-%s:%s<->%s" % (cn, T.short(b.path), a, c),
                  "%s is called with `%s` and `%s` in each other's positions (both %s): every limit derived from them is the other one's" % (cn, a, c, "same type"),
                  ctx.loc(b, blk))
-    if not found:
+    if not found and not misnamed:
         ctx.ok(rule, "argument-order", "%d calls to named-parameter workspace functions, no exchanged same-typed arguments" % n)
     return n
